@@ -95,6 +95,18 @@ def r_compile_protocol(ctx, rule='R01.2'):
             res = M.simplify_field(inp, 'residual', None)
             ctx.check(M.is_param(res) , rule, '%s/compile#%d-residual' % (tag, n), b, b.loc(bb),
                       'residual of compilation #%d is the popped node' % n, 'residual of compilation #%d is %s, not the popped node' % (n, M.show(res)))
+            # the other slots of the CompilationInput: each is the solver's component of the same role (a value in the wrong slot type-checks
+            # whenever two roles share a type: cache / dominance are distinct traits, but problem / relaxation / ranking / cutoff / width
+            # come from fields that a refactoring can cross), and the width is the heuristic's answer for THIS node
+            for slot, fld in (('problem', 'problem'), ('relaxation', 'relaxation'), ('ranking', 'ranking'), ('cutoff', 'cutoff'), ('cache', 'cache'), ('dominance', 'dominance')):
+                sv = M.simplify_field(inp, slot, None)
+                okslot = isinstance(sv, tuple) and M.contains(sv, lambda x, fld=fld: isinstance(x, tuple) and x and x[0] == 'field' and len(x) == 4 and x[2] == fld and (x[3] or '').endswith(('SequentialSolver', 'parallel::Shared')))
+                ctx.check(okslot, rule, '%s/compile#%d-%s' % (tag, n, slot), b, b.loc(bb), 'CompilationInput.%s of compilation #%d is the solver\'s %s' % (slot, n, fld),
+                          'CompilationInput.%s of compilation #%d is %s, not the solver\'s %s' % (slot, n, M.show(sv)[:100], fld))
+            wv = M.simplify_field(inp, 'max_width', None)
+            okw = M.contains(wv, lambda x: M.is_call(x, 'WidthHeuristic::max_width') and M.contains(x[2][0], lambda y: isinstance(y, tuple) and y and y[0] == 'field' and len(y) == 4 and y[2] == 'width_heu') and M.is_param(x[2][1]))
+            ctx.check(okw and (M.is_call(wv, 'WidthHeuristic::max_width') or (isinstance(wv, tuple) and wv and wv[0] == 'var')), rule, '%s/compile#%d-max_width' % (tag, n), b, b.loc(bb),
+                      'max_width of compilation #%d is width_heu.max_width(the popped node)' % n, 'max_width of compilation #%d is %s, not the width heuristic\'s answer for the popped node' % (n, M.show(wv)[:120]))
             lbt = M.simplify_field(inp, 'best_lb', None)
             ctx.check(is_lb(ctx.F)(lbt), rule, '%s/compile#%d-best_lb' % (tag, n), b, b.loc(bb),
                       'best_lb of compilation #%d is the incumbent' % n, 'best_lb of compilation #%d is %s, not the incumbent' % (n, M.show(lbt)))
